@@ -17,7 +17,7 @@ from __future__ import annotations
 
 import ast
 
-from engine.cfg import call_name, cfg_of
+from engine.cfg import expand_aliases, call_name, cfg_of
 from engine.errors import AnalysisError
 from engine.repo import walk_no_nested
 from engine.util import calls_in, depends_on, local_assignments, registrations, unparse
@@ -31,8 +31,25 @@ LS = 'sdc11073.provider.porttypes.localizationservice.LocalizationStorage'
 
 
 def _handle_loops(fn):
-    return [n for n in walk_no_nested(fn) if isinstance(n, ast.For) and unparse(n.iter) == 'requested_handles'
+    """Loops over the HandleRef list of the request (alias-expanded view: the iterable ends with .HandleRef)."""
+    return [n for n in walk_no_nested(fn) if isinstance(n, ast.For) and unparse(n.iter).endswith('.HandleRef')
             and isinstance(n.target, ast.Name)]
+
+
+def _empty_request_fact(facts) -> bool:
+    """One of the facts says: the HandleRef list of the request is empty."""
+    import re
+    for txt, pol in list(facts) + list(facts.resolved):
+        m = re.fullmatch(r'len\((.+\.HandleRef)\) (==|>|!=|<=|>=|<) (0|1)', txt)
+        if m:
+            op, k = m.group(2), m.group(3)
+            empty_when_true = {('==', '0'): True, ('<=', '0'): True, ('<', '1'): True,
+                               ('>', '0'): False, ('!=', '0'): False, ('>=', '1'): False}.get((op, k))
+            if empty_when_true is not None and pol == empty_when_true:
+                return True
+        if txt.endswith('.HandleRef') and '(' not in txt and pol is False:
+            return True
+    return False
 
 
 def run(ctx):  # noqa: C901, PLR0912, PLR0915
@@ -46,7 +63,7 @@ def run(ctx):  # noqa: C901, PLR0912, PLR0915
     # ------------------------------------------------------------------ R1 + R2 + R3
     n_loops = 0
     for q in (GS, CS):
-        fi = repo.func(q)
+        fi = expand_aliases(repo.func(q))  # `states = self._mdib.states` style aliases are written out
         g = cfg_of(fi)
         assigns = local_assignments(fi.node)
         loops = _handle_loops(fi.node)
@@ -112,9 +129,9 @@ def run(ctx):  # noqa: C901, PLR0912, PLR0915
             # every other value that is added to the result inside the loop must depend on the handle
             la = local_assignments(lp)
             for n in ast.walk(lp):
-                if isinstance(n, ast.Assign) and isinstance(n.targets[0], ast.Name) and n.targets[0].id == 'tmp' and \
+                if isinstance(n, ast.Assign) and isinstance(n.targets[0], ast.Name) and \
                         'context_states.objects' in unparse(n.value):
-                    dep = depends_on(n.value, {k: v for k, v in la.items() if k != 'tmp'}, hv)
+                    dep = depends_on(n.value, {k: v for k, v in la.items() if k != n.targets[0].id}, hv)
                     ctx.ob('C20.R3', f'{fi.name}: MDS branch {unparse(n.value)[:60]}', dep,
                            f'{fi.name}: the context states returned for an MDS handle are selected by that MDS' if dep else
                            f'{fi.name}: for an MDS handle ALL context states of the MDIB are returned '
@@ -126,13 +143,20 @@ def run(ctx):  # noqa: C901, PLR0912, PLR0915
                 ok = order == want
                 # the later lookups happen only if the earlier one found nothing
                 gnodes = {c: next((n for n in g.real_nodes() if any(a is c for a in n.walk())), None) for c in lookups}
-                for c, n in gnodes.items():
+                prev_target = None
+                for c in sorted(lookups, key=lambda c: (c.lineno, c.col_offset)):
+                    n = gnodes.get(c)
                     if n is None:
                         ok = False
                         continue
-                    nm = unparse(c.func).split('_mdib.')[1]
-                    if nm != want[0]:
-                        ok = ok and ('tmp', False) in g.facts_at(n)
+                    # a later alternative is tried only when the result of the previous one (whatever it is called) is empty
+                    if prev_target is not None:
+                        ok = ok and (prev_target, False) in g.facts_at(n)
+                    if n.kind == 'stmt' and isinstance(n.stmt, ast.Assign) and isinstance(n.stmt.targets[0], ast.Name):
+                        tname = n.stmt.targets[0].id
+                        # descriptions lookup feeds the MDS test, the accumulated result keeps its name
+                        if 'context_states' in unparse(c.func):
+                            prev_target = tname
                 ctx.ob('C20.R2', f'{fi.name}: resolution order', ok,
                        'GetContextStates resolves a handle as context state, else as descriptor, else as MDS' if ok else
                        f'GetContextStates resolves handles in the order {order}', fi=fi, witness=order)
@@ -165,10 +189,9 @@ def run(ctx):  # noqa: C901, PLR0912, PLR0915
     ctx.floor('C20.R1', n_loops, 3, 'per-handle loops')
     # empty handle list -> all states
     for q, all_src in ((GS, 'self._mdib.states.objects'), (CS, 'self._mdib.context_states.objects')):
-        fi = repo.func(q)
+        fi = expand_aliases(repo.func(q))
         g = cfg_of(fi)
-        alln = [n for n in g.real_nodes() if all_src in n.text() and
-                ('len(requested_handles) == 0', True) in g.facts_at(n)]
+        alln = [n for n in g.real_nodes() if all_src in n.text() and _empty_request_fact(g.facts_at(n))]
         ctx.ob('C20.R2', f'{fi.name}: empty list', bool(alln), 'an empty handle list selects all states', fi=fi)
 
     # ------------------------------------------------------------------ R4
@@ -191,18 +214,43 @@ def run(ctx):  # noqa: C901, PLR0912, PLR0915
                f'filter_localized_texts: parameter {p} influences the result' if dd or cd else
                f'filter_localized_texts: parameter {p} has no influence on the returned texts (the constraint is ignored)',
                fi=fl, witness={'data': dd, 'control': cd})
-    src = unparse(fl.node)
-    ok = 'if requested_version is None' in src and 'effective_requested_version = max(all_versions)' in src and \
-        'v.Version == effective_requested_version' in src
+    # decided on data dependence (engine/deps.py) and branch facts, so that loop / comprehension / accumulate-in-a-list
+    # spellings of the same selection all look the same
+    from engine.deps import Deps
+    dp = Deps(fl.node)
+    gfl = cfg_of(fl)
+    ret_src = set()
+    for r in rets:
+        ret_src |= dp.sources(r.value)
+    mx = [(n, c) for n, c in gfl.nodes_calling('max')
+          if ('requested_version is None', True) in gfl.facts_at(n)
+          and c.args and dp.depends(c.args[0], 'self._localized_texts', 'attr:Version')]
+    vcmp = [c for c in ast.walk(fl.node) if isinstance(c, ast.Compare) and len(c.ops) == 1 and isinstance(c.ops[0], ast.Eq)
+            and any(isinstance(x, ast.Attribute) and x.attr == 'Version' for x in (c.left, c.comparators[0]))
+            and any(dp.depends(x, 'param:requested_version', 'call:max') for x in (c.left, c.comparators[0]))]
+    ok = bool(mx) and bool(vcmp) and {'cmp:Eq', 'call:max', 'param:requested_version'} <= ret_src
     ctx.ob('C20.R4', 'newest version by default', ok,
            'without a requested version the maximum stored version is used, and only texts of the effective version are '
-           'returned', fi=fl)
-    ok = 't.Lang in requested_langs' in src and 'self._localized_texts[handle]' in src
-    ctx.ob('C20.R4', 'language and reference filters', ok, 'texts are selected by reference and filtered by language', fi=fl)
+           'returned', fi=fl, witness={'max under "requested_version is None"': [n.lineno for n, _ in mx],
+                                       'version comparisons': [unparse(c) for c in vcmp]})
+    lcmp = [c for c in ast.walk(fl.node) if isinstance(c, ast.Compare) and len(c.ops) == 1 and isinstance(c.ops[0], ast.In)
+            and isinstance(c.left, ast.Attribute) and c.left.attr == 'Lang'
+            and dp.depends(c.comparators[0], 'param:requested_langs')]
+    refs = [x for x in ast.walk(fl.node) if isinstance(x, ast.Subscript) and unparse(x.value) == 'self._localized_texts'
+            and dp.depends(x.slice, 'param:requested_handles')]
+    ok = bool(lcmp) and bool(refs) and {'cmp:In', 'self._localized_texts', 'param:requested_langs',
+                                        'param:requested_handles'} <= ret_src
+    ctx.ob('C20.R4', 'language and reference filters', ok, 'texts are selected by reference and filtered by language', fi=fl,
+           witness={'language tests': [unparse(c) for c in lcmp], 'reference lookups': [unparse(x) for x in refs]})
     sl = repo.func(f'{LS}.get_supported_languages')
-    src = unparse(sl.node)
-    ok = 'self._flat_list()' in src and 'result.add(str(text.Lang))' in src and 'set()' in src
-    ctx.ob('C20.R4', 'supported languages', ok, 'get_supported_languages is the set of Lang over all stored texts', fi=sl)
+    ds = Deps(sl.node)
+    src_sl = set()
+    for r in walk_no_nested(sl.node):
+        if isinstance(r, ast.Return) and r.value is not None:
+            src_sl |= ds.sources(r.value)
+    ok = {'call:_flat_list', 'attr:Lang'} <= src_sl and bool({'kind:SetComp', 'kind:Set', 'call:set'} & src_sl)
+    ctx.ob('C20.R4', 'supported languages', ok, 'get_supported_languages is the set of Lang over all stored texts', fi=sl,
+           witness=sorted(src_sl))
     fl2 = repo.func(f'{LS}._flat_list')
     ctx.ob('C20.R4', '_flat_list covers the whole store', 'list(self._localized_texts.keys())' in unparse(fl2.node),
            '_flat_list without references iterates every stored reference', fi=fl2)
